@@ -5,6 +5,7 @@ package main
 import (
 	"fmt"
 	"strings"
+	"unicode/utf8"
 )
 
 var c16Alphabet = []string{"a", "b", " ", "é", "中", "😀", ",", "\t"}
@@ -142,6 +143,32 @@ func runC16(c *ctx) {
 		case 11:
 			c.diffEval("$trim(s & c & s) & $length(s)", in, "rand/trim")
 		}
+	}
+	// the laws on strings of unusual content (control characters, U+FFFD inside a longer string, astral and combining
+	// characters, runs of exactly 16/32/64/256 characters); the implementation alone is run, the law is the oracle
+	for i := 0; i < c.scale(3000, 50000) && !c.tooMany(); i++ {
+		s := exoticString(r)
+		if r.chance(1, 3) {
+			s = exoticString(r) + randString(r, 4) + exoticString(r)
+		}
+		sep := exoticString(r)
+		if r.chance(1, 2) {
+			sep = randString(r, 2)
+		}
+		if len(sep) > 40 {
+			sep = string([]rune(sep)[:3])
+		}
+		in := map[string]interface{}{"s": s, "c": sep, "m": float64(r.intn(41) - 20), "k": float64(utf8.RuneCountInString(s))}
+		law("$base64decode($base64encode(s)) = s", in, "law-exotic/base64")
+		if s != "\ufffd" {
+			law("$decodeUrlComponent($encodeUrlComponent(s)) = s", in, "law-exotic/url")
+		}
+		law("$length(s) = k", in, "law-exotic/length")
+		law("$substring(s, 0) = s and $substring(s, 0, k) = s and $substring(s, k) = \"\"", in, "law-exotic/substring")
+		law("$join($split(s, c), c) = s", in, "law-exotic/splitjoin")
+		law("$length($pad(s, m)) = $max([$abs(m), k])", in, "law-exotic/pad")
+		law("$substringBefore(s, c) & (($contains(s, c)) ? c & $substringAfter(s, c) : \"\") = s", in, "law-exotic/beforeafter")
+		law("$length($uppercase(s)) >= 0 and $lowercase(s) = $lowercase($lowercase(s))", in, "law-exotic/case")
 	}
 	// wrong argument kinds
 	for _, p := range []string{"$length(1)", "$substring(1, 1)", "$substring(\"a\", \"b\")", "$pad(\"a\", \"b\")", "$split(\"a\", 1)", "$join([1, 2])", "$join(\"a\")", "$replace(\"a\", \"\", \"b\")",
